@@ -1,8 +1,10 @@
 import VlsModel.Drv.Common
-/- Line-protocol models serving property C01 (none yet). -/
+import VlsModel.Drv.Enforcement
+/- Line-protocol models serving property C01. -/
 namespace VlsModel.Drv.C01
 open VlsModel.Drv
 
-def models : List (String × Model) := []
+def models : List (String × Model) :=
+  [ ("enforcement", Enforcement.model) ]
 
 end VlsModel.Drv.C01
